@@ -221,7 +221,7 @@ type c17Case struct {
 func c17Name(r *vlib.Rng, addr, port string) (string, string) {
 	otherAddr := vlib.PickOne(r, []string{"6.6.6.6", "::1", "2001:db8::bad", "evil.example.org"})
 	otherPort := vlib.PickOne(r, []string{"1", "22", "65535", "0"})
-	switch r.Intn(16) {
+	switch r.Intn(18) {
 	case 0:
 		return fmt.Sprintf("x from %s port %s", otherAddr, otherPort), "embedded-from-port"
 	case 1:
@@ -283,6 +283,19 @@ func c17Name(r *vlib.Rng, addr, port string) (string, string) {
 		return string(rs), "unicode"
 	case 14:
 		return strings.Repeat(vlib.PickOne(r, []string{"a", " from ", " port 1", "ab "}), 100)[:100], "len100"
+	case 15, 16:
+		// what sshd, syslog and log shippers put around a message, as part of the name
+		deco := vlib.PickOne(r, []string{" [preauth]", "[preauth]", " [preauth] ", "sshd[4242]: ", "error: ", "fatal: ", "\t", "\r", "  ",
+			" ssh2", " ssh2: RSA SHA256:abc", "<38>", "Oct  4 12:00:00 host ", "\x00", "%s", "\\n", "(serial 1)", " ID x", " CA y"})
+		switch r.Intn(4) {
+		case 0:
+			return "x" + deco, "log-decoration"
+		case 1:
+			return deco + "x", "log-decoration"
+		case 2:
+			return fmt.Sprintf("x from %s port %s ssh2%s", otherAddr, otherPort, deco), "log-decoration-after-embedded-peer"
+		}
+		return "a" + deco + "b", "log-decoration"
 	}
 	return vlib.PickOne(r, vlib.PoolUsers), "benign"
 }
